@@ -106,6 +106,41 @@ def rule_T1(F, R, only=None):
                 R.violation("T1", p, "interaction-after-commit", "%s is reachable after commit in %s" % (late[0][1], qb["owner_fn"]), where(qb, late[0][0]))
             else:
                 R.ok("T1", "%s: commit is the last storage interaction in %s" % (short, qb["owner_fn"]), where(qb, i))
+        # (v) what was written is committed: in the function that holds the commit, no successful return is
+        # reachable from a write (direct or through a helper) without passing the commit
+        from tc.util import error_blocks
+        for fnpath in sorted({qb["path"] for (qb, _qc, _i, _t) in commits}):
+            qb = F.bodies[fnpath]
+            qc = cfg_of(qb)
+            cblocks = {i for (qb2, _qc2, i, _t2) in commits if qb2["path"] == fnpath}
+            errs = error_blocks(qc)
+
+            def writes(t):
+                for n in call_names(t):
+                    if n in wpaths and not n.endswith("::commit"):
+                        return n
+                    nn = _norm(n)
+                    if nn in F.bodies and (nn.startswith("taskdb::") or nn.startswith("<taskdb::")) and nn != _norm(fnpath):
+                        for q2 in F.reachable_from([nn]):
+                            if not (q2.startswith("taskdb::") or q2.startswith("<taskdb::")):
+                                continue
+                            for (_j, t2) in F.calls_in.get(q2, ()):
+                                if any(x in wpaths and not x.endswith("::commit") for x in call_names(t2)):
+                                    return n
+                return None
+            lost = None
+            for (wi, wt) in qc.calls():
+                wn = writes(wt)
+                if wn is None or wi in cblocks:
+                    continue
+                r = qc.reachable_after(wi, removed=cblocks | errs)
+                if any(k in r for k in qc.exits()):
+                    lost = (wi, wn)
+                    break
+            if lost:
+                R.violation("T1", p, "write-not-committed:" + lost[1].split("::")[-1], "%s can return successfully after %s without committing: the write is discarded with the dropped transaction although the action reports success" % (qb["owner_fn"].split("::")[-1], lost[1].split("::")[-1]), where(qb, lost[0]))
+            else:
+                R.ok("T1", "%s: every successful return after a write has passed the commit" % qb["owner_fn"].split("::")[-1], where(qb))
         # helpers that commit: after they return, the action does nothing more with storage
         helper_commit_owners = {qb["owner_fn"] for (qb, _c, _i, _t) in commits if qb["owner_fn"] != b["owner_fn"]}
         for (i, t) in c.calls():
